@@ -227,9 +227,10 @@ Fixpoint h_expand (fx : bool) (s : wsys) (ops : list hop) : list wop :=
 (* abstract state: per condition the sets enabled / changed; per waiter whether a
    wait() call is in progress, on which conditions, whether it is blocked (its
    last poll sent no mail and its waker was not called since), and for every
-   attached condition whether it was true / false during the whole call *)
+   attached condition for how many of the waiter's own steps (polls) it has been
+   true / false without interruption *)
 Record wsp : Type := mkSp { sp_run : bool; sp_att : list nat; sp_blk : bool;
-                            sp_at : list bool; sp_af : list bool }.
+                            sp_tt : list nat; sp_ff : list nat }.
 Record wspec : Type := mkWS { ws_en : list (StatusKind -> bool); ws_chg : list (StatusKind -> bool);
                               ws_w : list wsp }.
 
@@ -248,8 +249,10 @@ Fixpoint dec (fuel : nat) (r : Z) : list nat :=
 Definition mem (x : nat) (l : list nat) : bool := existsb (Nat.eqb x) l.
 
 (* the result of a finished call: Err(PreconditionNotMet) iff nothing is attached;
-   otherwise a list of attached conditions that contains every condition that was
-   true during the whole call and none that was false during the whole call *)
+   otherwise a list of attached conditions that is not staler than one collect
+   loop: it contains every condition that has been true during the last
+   |attached|+1 polls of the call (in particular during the whole call) and none
+   that has been false during that time *)
 Definition result_ok (nc : nat) (sp : wsp) (r : Z) : bool :=
   sp_run sp &&
   match sp_att sp with
@@ -259,8 +262,8 @@ Definition result_ok (nc : nat) (sp : wsp) (r : Z) : bool :=
       let res := dec 16 r in
       forallb (fun c => mem c att && (c <? nc)%nat) res &&
       forallb (fun i => let c := nth i att 0%nat in
-                        (negb (nth i (sp_at sp) false) || mem c res) &&
-                        (negb (nth i (sp_af sp) false) || negb (mem c res)))
+                        (negb (length att <? nth i (sp_tt sp) 0)%nat || mem c res) &&
+                        (negb (length att <? nth i (sp_ff sp) 0)%nat || negb (mem c res)))
               (seq 0 (length att))
   end.
 
@@ -280,12 +283,14 @@ Definition ws_step (nc nw : nat) (o : wspec) (op : hop) (line : list Z) : wspec 
       let '(ws1, ok_op) :=
         match op with
         | HStart w cs =>
-            (upd (ws_w o) w (mkSp true cs false (map (fun _ => true) cs) (map (fun _ => true) cs)), true)
+            (upd (ws_w o) w (mkSp true cs false (map (fun _ => 0%nat) cs) (map (fun _ => 0%nat) cs)), true)
         | HCancel w => (upd (ws_w o) w idle, true)
         | HStep w =>
-            let sp := nth w (ws_w o) idle in
+            let sp0 := nth w (ws_w o) idle in
+            (* one more poll of this waiter *)
+            let sp := mkSp (sp_run sp0) (sp_att sp0) (sp_blk sp0) (map S (sp_tt sp0)) (map S (sp_ff sp0)) in
             if r =? -1
-            then (upd (ws_w o) w (mkSp (sp_run sp) (sp_att sp) (sp_run sp && (m =? 0)) (sp_at sp) (sp_af sp)), true)
+            then (upd (ws_w o) w (mkSp (sp_run sp) (sp_att sp) (sp_run sp && (m =? 0)) (sp_tt sp) (sp_ff sp)), true)
             else (upd (ws_w o) w idle, result_ok nc sp r)
         | HGet c => (ws_w o, r =? b2z (ws_trigger o1 c))
         | _ => (ws_w o, true)
@@ -296,9 +301,9 @@ Definition ws_step (nc nw : nat) (o : wspec) (op : hop) (line : list Z) : wspec 
       let ws2 := map (fun w =>
                    let sp := nth w ws1 idle in
                    mkSp (sp_run sp) (sp_att sp) (sp_blk sp && negb (testbitZ woken w))
-                        (map (fun i => nth i (sp_at sp) false && ws_trigger o1 (nth i (sp_att sp) 0%nat))
+                        (map (fun i => if ws_trigger o1 (nth i (sp_att sp) 0%nat) then nth i (sp_tt sp) 0%nat else 0%nat)
                              (seq 0 (length (sp_att sp))))
-                        (map (fun i => nth i (sp_af sp) false && negb (ws_trigger o1 (nth i (sp_att sp) 0%nat)))
+                        (map (fun i => if ws_trigger o1 (nth i (sp_att sp) 0%nat) then 0%nat else nth i (sp_ff sp) 0%nat)
                              (seq 0 (length (sp_att sp)))))
                    (seq 0 nw) in
       (* part 2: no waiter is blocked while one of its attached conditions is true *)
